@@ -9,6 +9,8 @@ CHECKS = {
          NOTE + "gearhash SIMD==scalar and BLAKE3 chunk hash checked by correspondence/oracle only.", "DESIGN.md 6 C04"),
  "C06": ("Coq theorems: validators' aggregation path == uploader's cas_node_hash for every interior hash function; HashedWrite hashes exactly the accepted bytes for every writer behaviour (fact regenerated from the source); hex round-trip/injectivity; single-chunk boundary fact; pinned values of an independent Gallina BLAKE3. Tie: keys, cut rule and formats regenerated from source; correspondence of every hash function, text form and HashedWrite script against the real crates; inequality oracle on mutated chunk lists.",
          NOTE + "blake3/base64 crates tied to the Gallina implementations by correspondence only; no collision-freeness assumed.", "DESIGN.md 6 C06"),
+ "C09": ("Coq theorems: every record codec generated from the Rust serialize/deserialize call sequences round-trips; file and xorb records (all flag combinations, any number of entries) and whole sections parse back to exactly the records that were serialised, for any number of records. Tie: codecs, tags, versions and the statements of the interpolation search regenerated/pinned from source; correspondence of serialised bytes, size accounting, scans and every lookup on generated shards (clustered/dense/extreme/prefix-sharing keys, tables above the read window); direct oracle: stored keys found exactly, absent keys not found, three readers agree, totals exact. Search correctness for every probe oracle is modelled and exercised; its Coq proof is not yet part of this revision (stated in DESIGN.md).",
+         NOTE + "BTreeMap/HashMap as association lists; f64 probe replaced by exact rationals in the executable model (results do not depend on the probe).", "DESIGN.md 6 C09"),
 }
 ALL = ["C%02d" % i for i in range(1, 21)]
 def main():
